@@ -10,6 +10,12 @@ never fails, is a sublist) and the T0 theorems; `Lemmas/StringFns/*` one theorem
 the property, the node-set-argument rule, `normalize-space`, and the induction over nested calls.
 
 `Agrees m s` : the oracle returns a value `v` and the engine returns the same value.
+
+After the repair of `containsFunc`/`startwithFunc`/`endwithFunc` (the second argument is read like
+the first: a string as it is, a node-set as the string-value of its first node, `""` when empty;
+numbers and booleans still raise) a node-set is allowed in EITHER position of these three functions:
+`C09_each_function` (last three conjuncts), `C09_nodeset_argument` (second conjunct),
+`C09_string_tests_either_position`, `C09_string_tests_raise`.
 -/
 namespace XPathV.Theorems.C09
 open XPathV XPathV.Model XPathV.Facts XPathV.StringFns NumAlg
@@ -21,7 +27,8 @@ property (substring with 2 and 3 arguments; `normalize-space` on strings on whic
 whitespace coincide), for every document, context and configuration -/
 theorem C09_each_function (d : Doc) (cfg : ECfg) (fi : Plan) (c : Ref) (asel : Option (List Ref))
     (ctx : Spec.Ctx) (a b s : String) (x y : F) (ss : List String) (h2 : 2 ≤ ss.length) (l : List Ref)
-    (hp : ∀ ch ∈ a.toList, Model.isSpace ch = Spec.isXmlSpace ch) :
+    (hp : ∀ ch ∈ a.toList, Model.isSpace ch = Spec.isXmlSpace ch)
+    (va vb : Spec.Value F) (hva : StrLike va) (hvb : StrLike vb) :
     Agrees (F := F) (callFn d cfg "concat" fi c (ss.map (fun s => .ok (.str s))) asel)
       (Spec.callFn d ctx "concat" (ss.map .str)) ∧
     Agrees (F := F) (callFn d cfg "contains" fi c [.ok (.str a), .ok (.str b)] asel)
@@ -48,14 +55,25 @@ theorem C09_each_function (d : Doc) (cfg : ECfg) (fi : Plan) (c : Ref) (asel : O
       (Spec.callFn d ctx "lower-case" [.str a]) ∧
     Agrees (F := F) (callFn d cfg "string-join" fi c [.ok (.nodes l), .ok (.str b)] asel)
       (Spec.callFn d ctx "string-join" [.nodes l, .str b]) ∧
-    Agrees (F := F) (callFn d cfg "string" fi c [.ok (.str a)] asel) (Spec.callFn d ctx "string" [.str a]) :=
+    Agrees (F := F) (callFn d cfg "string" fi c [.ok (.str a)] asel) (Spec.callFn d ctx "string" [.str a]) ∧
+    -- after the repair of containsFunc/startwithFunc/endwithFunc: a string or a node-set (`StrLike`)
+    -- in EITHER position; the answer is the oracle's, i.e. the test on the two string-values
+    Agrees (F := F) (callFn d cfg "contains" fi c [.ok (Theorems.C08.emb va), .ok (Theorems.C08.emb vb)] asel)
+      (Spec.callFn d ctx "contains" [va, vb]) ∧
+    Agrees (F := F) (callFn d cfg "starts-with" fi c [.ok (Theorems.C08.emb va), .ok (Theorems.C08.emb vb)] asel)
+      (Spec.callFn d ctx "starts-with" [va, vb]) ∧
+    Agrees (F := F) (callFn d cfg "ends-with" fi c [.ok (Theorems.C08.emb va), .ok (Theorems.C08.emb vb)] asel)
+      (Spec.callFn d ctx "ends-with" [va, vb]) :=
   ⟨fn_concat_spec d cfg fi c asel ctx ss h2, fn_contains_spec d cfg fi c asel ctx a b,
    fn_starts_with_spec d cfg fi c asel ctx a b, fn_ends_with_spec d cfg fi c asel ctx a b,
    fn_substring_before_spec d cfg fi c asel ctx a b, fn_substring_after_spec d cfg fi c asel ctx a b,
    fn_substring2_spec d cfg fi c asel ctx a x, fn_substring3_spec d cfg fi c asel ctx a x y,
    fn_string_length_spec d cfg fi c asel ctx a, fn_normalize_space_spec d cfg fi c asel ctx a hp,
    fn_translate_spec d cfg fi c asel ctx s a b, fn_lower_case_spec d cfg fi c asel ctx a,
-   fn_string_join_spec d cfg fi c asel ctx l b, fn_string_spec d cfg fi c asel ctx (.str a)⟩
+   fn_string_join_spec d cfg fi c asel ctx l b, fn_string_spec d cfg fi c asel ctx (.str a),
+   fn_strtest_strlike_agrees d cfg fi c asel ctx "contains" (by simp [strTestFns]) va vb hva hvb,
+   fn_strtest_strlike_agrees d cfg fi c asel ctx "starts-with" (by simp [strTestFns]) va vb hva hvb,
+   fn_strtest_strlike_agrees d cfg fi c asel ctx "ends-with" (by simp [strTestFns]) va vb hva hvb⟩
 
 /-- `string(v)` for a value of any type, and `string()` of the context node -/
 theorem C09_string_any (d : Doc) (cfg : ECfg) (fi : Plan) (c : Ref) (asel : Option (List Ref))
@@ -65,13 +83,42 @@ theorem C09_string_any (d : Doc) (cfg : ECfg) (fi : Plan) (c : Ref) (asel : Opti
   ⟨fn_string_spec d cfg fi c asel ctx v, fn_string0_spec d cfg fi asel ctx⟩
 
 /-- **node-set arguments**: a node list in first position stands for the string-value of its
-first node (`""` when empty), exactly as the oracle's `string()` conversion -/
+first node (`""` when empty), exactly as the oracle's `string()` conversion — and, after the repair
+of `contains`/`starts-with`/`ends-with`, so does a node list in **second** position of the functions
+of `secondArgFns` (`contains`, `starts-with`, `ends-with`, `substring-before`, `substring-after`,
+`translate`), whatever the first argument's outcome is -/
 theorem C09_nodeset_argument (d : Doc) (cfg : ECfg) (fi : Plan) (c : Ref) (asel : Option (List Ref))
     (name : String) (hn : name ∈ firstArgFns) (l : List Ref) (rest : List (Except EErr (MVal F)))
     (hr : RestOk name rest) :
     callFn (F := F) d cfg name fi c (.ok (.nodes l) :: rest) asel
-      = callFn d cfg name fi c (.ok (.str (Spec.toStr (F := F) d (.nodes l))) :: rest) asel :=
-  nodeset_arg_is_first d cfg fi c asel name hn l rest hr
+      = callFn d cfg name fi c (.ok (.str (Spec.toStr (F := F) d (.nodes l))) :: rest) asel ∧
+    (name ∈ secondArgFns → ∀ (a1 : Except EErr (MVal F)) (l2 : List Ref) (tl : List (Except EErr (MVal F))),
+      callFn (F := F) d cfg name fi c (a1 :: .ok (.nodes l2) :: tl) asel
+        = callFn d cfg name fi c (a1 :: .ok (.str (Spec.toStr (F := F) d (.nodes l2))) :: tl) asel) :=
+  ⟨nodeset_arg_is_first d cfg fi c asel name hn l rest hr,
+   fun hn2 a1 l2 tl => nodeset_arg_is_second d cfg fi c asel name hn2 a1 l2 tl⟩
+
+/-- **a node-set in either position of `contains` / `starts-with` / `ends-with`**: the engine's
+answer is the oracle's answer, the test on the two string-values; node lists in both positions are
+as good as their first nodes' string-values -/
+theorem C09_string_tests_either_position (d : Doc) (cfg : ECfg) (fi : Plan) (c : Ref)
+    (asel : Option (List Ref)) (ctx : Spec.Ctx) (name : String) (hn : name ∈ strTestFns)
+    (va vb : Spec.Value F) (hva : StrLike va) (hvb : StrLike vb) :
+    callFn (F := F) d cfg name fi c [.ok (Theorems.C08.emb va), .ok (Theorems.C08.emb vb)] asel =
+      .ok (.bool (strTestOf name (Spec.toStr d va) (Spec.toStr d vb))) ∧
+    Spec.callFn (F := F) d ctx name [va, vb] =
+      .ok (.bool (strTestOf name (Spec.toStr d va) (Spec.toStr d vb))) :=
+  fn_strtest_strlike_spec d cfg fi c asel ctx name hn va vb hva hvb
+
+/-- what still raises "argument type must be string": a number or a boolean, in either position
+(the package's own tests pin `contains(0, 0)` as an error) -/
+theorem C09_string_tests_raise (d : Doc) (cfg : ECfg) (fi : Plan) (c : Ref) (asel : Option (List Ref))
+    (name : String) (hn : name ∈ strTestFns) (v w : MVal F)
+    (hw : (∃ x, w = .num x) ∨ (∃ b, w = .bool b)) :
+    callFn (F := F) d cfg name fi c [.ok w, .ok v] asel = .error (.raised name) ∧
+    ((∃ s, v = .str s) ∨ (∃ l, v = .nodes l) →
+      callFn (F := F) d cfg name fi c [.ok v, .ok w] asel = .error (.raised name)) :=
+  fn_strtest_raises d cfg fi c asel name hn v w hw
 
 /-- `normalize-space`: Go's `unicode.IsSpace`/`TrimSpace` loop equals the XML-whitespace collapse
 on every string on which the two notions of whitespace coincide (in particular all ASCII strings
